@@ -296,6 +296,15 @@ def finish(ctx, level, technique_note, trusted_base, checker_cmd, explanation=No
     return 1 if violations else 0
 
 
+def regen(ctx, needed=()):
+    """run all translators against /repo's current tree (hash-cached); returns the failures among `needed`"""
+    import gen_all
+    errs = gen_all.generate_all()
+    if errs:
+        ctx.coverage["translator_errors"] = errs
+    return {k: v for k, v in errs.items() if not needed or k in needed}
+
+
 def install_matid():
     """import matid from /repo's working tree with the C++ rebuilt through the shim"""
     import extshim
